@@ -661,9 +661,9 @@ func genHistoryC14(r *common.Rng, seed int64, run int, config string) *History {
 		case 5:
 			h.Ops = append(h.Ops, Op{F: "strings.EncloseWith", Args: []string{s(), s(), s()}})
 		case 6, 7:
-			h.Ops = append(h.Ops, Op{F: "strings.Split", Args: []string{r.Pick(",", "a", "ab", ",,", " "), s()}})
+			h.Ops = append(h.Ops, Op{F: "strings.Split", Args: []string{r.Pick(",", "a", "ab", ",,", " ", ""), s()}})
 		case 8:
-			h.Ops = append(h.Ops, Op{F: "strings.SplitN", Args: []string{fmt.Sprint(r.Range(1, 4)), r.Pick(",", "a", " "), s()}})
+			h.Ops = append(h.Ops, Op{F: "strings.SplitN", Args: []string{fmt.Sprint(r.Range(-1, 4)), r.Pick(",", "a", " ", "", "ab"), s()}})
 		case 9:
 			h.Ops = append(h.Ops, Op{F: "frt.Pipe", Args: []string{fmt.Sprint(r.Intn(100))}})
 		case 10, 11:
